@@ -127,6 +127,9 @@ func checkC07(c *Ctx) {
 	c.Rule("R7.8", "namespaces nest per object: AppendObject saves, zeroes, closes and restores the open-namespace counter, so a nested object never closes the logger's own namespace", 4)
 	c1Namespace(c, "R7.8")
 	c7Clone(c)
+	c.Rule("R7.9", "slog handlers: context added through WithAttrs lands under exactly the groups open at that point (pending-group protocol), so a derived handler's entries nest as its own derivation path says", 2)
+	c18EmitProtocol(c, "R7.9")
+	c7Eager(c)
 	c7Wrappers(c)
 	c7Names(c)
 	c7Lazy(c)
@@ -137,7 +140,7 @@ func c7Pure(c *Ctx, fn *ssa.Function, mut map[*ssa.Function]string, exempt map[s
 	if len(fn.Params) == 0 {
 		return
 	}
-	recv := fn.Params[0]
+	_ = fn.Params[0]
 	why := mut[fn]
 	if why != "" {
 		// allow when the only mutation goes through an exempt helper
@@ -148,30 +151,7 @@ func c7Pure(c *Ctx, fn *ssa.Function, mut map[*ssa.Function]string, exempt map[s
 		}
 	}
 	c.Check(why == "", "R7.1", name, "no-store-through-receiver", fn.Pos(), "deriving does not modify the receiver (its parent, siblings and descendants keep emitting the same context): %s", why)
-	// aliasing appends
-	var bad []string
-	nApp := 0
-	for _, f := range WithClosures(fn) {
-		AllInstrs(f, func(i ssa.Instruction) {
-			call, ok := i.(*ssa.Call)
-			if !ok || CallBuiltin(call) != "append" {
-				return
-			}
-			base := call.Call.Args[0]
-			d := Desc(base)
-			if !strings.HasPrefix(d, recv.Name()+".") && !strings.HasPrefix(d, recv.Name()+"[") && d != recv.Name() {
-				return
-			}
-			nApp++
-			sl, isSlice := base.(*ssa.Slice)
-			if !isSlice || sl.Max == nil || sl.High == nil || Desc(sl.Max) != Desc(sl.High) {
-				bad = append(bad, "append("+d+", …) without a capacity cap")
-			}
-		})
-	}
-	if nApp > 0 || len(bad) > 0 {
-		c.Check(len(bad) == 0, "R7.2", name, "capped-append", fn.Pos(), "appends onto receiver-owned slices are capacity-capped (s[:n:n]), so siblings never share a backing array tail: %v", bad)
-	}
+	c7Appends(c, "R7.2", fn)
 	// result: fresh, the receiver, or a call result
 	for k, r := range Returns(fn) {
 		rv := RetVals(r)
@@ -604,4 +584,179 @@ func joinParts(fn *ssa.Function, seg string) bool {
 	})
 	sort.Strings(parts)
 	return len(parts) == 2 && strings.HasSuffix(parts[0], ".name") && parts[1] == "1:"+seg
+}
+
+
+// c7Appends: appends onto slices owned by the receiver / an argument object (also through a local struct copy of it)
+// are capacity-capped, so derived objects never share a backing-array tail with their parent and siblings.
+func c7Appends(c *Ctx, rule string, fn *ssa.Function) {
+	name := fn.String()
+	if len(fn.Params) == 0 {
+		return
+	}
+	var bad []string
+	nApp := 0
+	for _, f := range WithClosures(fn) {
+		AllInstrs(f, func(i ssa.Instruction) {
+			call, ok := i.(*ssa.Call)
+			if !ok || CallBuiltin(call) != "append" {
+				return
+			}
+			base := call.Call.Args[0]
+			owner := ""
+			for _, p := range fn.Params {
+				if _, isSlice := types.Unalias(p.Type()).Underlying().(*types.Slice); isSlice && Strip(base) == ssa.Value(p) {
+					continue // appending to a slice argument itself is the caller's business (variadic options etc.)
+				}
+				if ownedBy(base, p, 0) {
+					owner = p.Name()
+				}
+			}
+			if owner == "" {
+				return
+			}
+			nApp++
+			sl, isSlice := base.(*ssa.Slice)
+			if !isSlice || sl.Max == nil || sl.High == nil || Desc(sl.Max) != Desc(sl.High) {
+				bad = append(bad, "append("+Desc(base)+", …) onto a slice owned by "+owner+" without a capacity cap")
+			}
+		})
+	}
+	if nApp > 0 || len(bad) > 0 {
+		c.Check(len(bad) == 0, rule, name, "capped-append", fn.Pos(), "appends onto slices owned by the receiver/argument object are capacity-capped (s[:n:n]), so parent and siblings never share a backing array tail: %v", bad)
+	}
+}
+
+// ownedBy: v is (a slice of) a slice-typed field of the object p points to / is, read directly, through a type
+// assertion of p, or through a local struct copy of *p whose field was not reassigned first.
+func ownedBy(v ssa.Value, p *ssa.Parameter, depth int) bool {
+	if depth > 6 {
+		return false
+	}
+	switch x := v.(type) {
+	case *ssa.Slice:
+		return ownedBy(x.X, p, depth+1)
+	case *ssa.UnOp:
+		if x.Op != token.MUL {
+			return false
+		}
+		fa, ok := x.X.(*ssa.FieldAddr)
+		if !ok {
+			return false
+		}
+		return objOf(fa.X, fa.Field, p, depth+1)
+	case *ssa.Field:
+		return objOf(x.X, x.Field, p, depth+1)
+	}
+	return false
+}
+
+func objOf(base ssa.Value, field int, p *ssa.Parameter, depth int) bool {
+	base = Strip(base)
+	if base == ssa.Value(p) {
+		return true
+	}
+	switch b := base.(type) {
+	case *ssa.TypeAssert:
+		return Strip(b.X) == ssa.Value(p)
+	case *ssa.Extract:
+		if ta, ok := b.Tuple.(*ssa.TypeAssert); ok {
+			return Strip(ta.X) == ssa.Value(p)
+		}
+	case *ssa.UnOp:
+		if b.Op == token.MUL {
+			return objOf(b.X, field, p, depth+1)
+		}
+	case *ssa.Alloc:
+		// a local copy: *a = *q with q owned by p, and no store to this field of a
+		if b.Referrers() == nil {
+			return false
+		}
+		copied := false
+		for _, r := range *b.Referrers() {
+			switch y := r.(type) {
+			case *ssa.Store:
+				if y.Addr == ssa.Value(b) {
+					if ld, ok := Strip(y.Val).(*ssa.UnOp); ok && ld.Op == token.MUL && objOf(ld.X, field, p, depth+1) {
+						copied = true
+					}
+					if Strip(y.Val) == ssa.Value(p) {
+						copied = true
+					}
+				}
+			case *ssa.FieldAddr:
+				if y.Field == field && y.Referrers() != nil {
+					for _, r2 := range *y.Referrers() {
+						if st, ok := r2.(*ssa.Store); ok && st.Addr == ssa.Value(y) {
+							// the field was reassigned: if it was given a fresh slice the append is fine; if it was
+							// given the result of this very append it is the statement under test
+							if _, isCall := Strip(st.Val).(*ssa.Call); !isCall {
+								return false
+							}
+							if mk, ok := Strip(st.Val).(*ssa.Call); ok && CallBuiltin(mk) != "append" {
+								return false
+							}
+						}
+					}
+				}
+			}
+		}
+		return copied
+	}
+	return false
+}
+
+
+// c7Eager: With (and the Fields option, which is With) evaluates its fields at derivation: the core is replaced by
+// core.With(fields) right there. Only WithLazy defers.
+func c7Eager(c *Ctx) {
+	c.Rule("R7.10", "With and the Fields option evaluate their fields at derivation (core.With right there); the console encoder's Clone carries the context bytes", 3)
+	for _, fn := range []*ssa.Function{c.Func(ZapPath, "Fields"), c.Method(ZapPath, "Logger", "With")} {
+		if fn == nil {
+			continue
+		}
+		eager, lazy := false, false
+		for _, f := range Region(fn) {
+			for _, g := range WithClosures(f) {
+				for _, cl := range Calls(g) {
+					if IsCallTo(cl, "(go.uber.org/zap/zapcore.Core).With") {
+						eager = true
+					}
+					if IsCallTo(cl, CorePath+".NewLazyWith") {
+						lazy = true
+					}
+				}
+			}
+		}
+		c.Check(eager && !lazy, "R7.10", fn.String(), "eager", fn.Pos(), "the fields are handed to core.With at derivation time (eager=%v, through NewLazyWith=%v): a later change of a mutable field value must not show up", eager, lazy)
+	}
+	// consoleEncoder.Clone: through a clone that copies the accumulated context bytes
+	jClone := c.Method(CorePath, "jsonEncoder", "Clone")
+	cc := c.Method(CorePath, "consoleEncoder", "Clone")
+	if c.Anchor("R7.10", "zapcore.consoleEncoder.Clone / jsonEncoder.Clone", jClone != nil && cc != nil) {
+		copying := map[*ssa.Function]bool{jClone: true}
+		for _, f := range Region(jClone) {
+			for _, g := range Region(f) {
+				for _, cl := range Calls(g) {
+					if IsCallTo(cl, "(*go.uber.org/zap/buffer.Buffer).Write", "(*go.uber.org/zap/buffer.Buffer).AppendBytes") {
+						copying[f] = true
+					}
+				}
+			}
+		}
+		ok := false
+		var used []string
+		for _, cl := range CallsDeep(cc) {
+			if sc := StaticCallee(cl); sc != nil && RecvNamed(sc) != nil && RecvNamed(sc).Obj().Name() == "jsonEncoder" {
+				used = append(used, sc.Name())
+				if copying[sc] {
+					ok = true
+				}
+			}
+			if cl.Common().IsInvoke() && cl.Common().Method.Name() == "Clone" {
+				ok = true
+			}
+		}
+		c.Check(ok, "R7.10", cc.String(), "clone-carries-context", cc.Pos(), "the console encoder is cloned through a JSON-encoder clone that copies the accumulated context bytes (uses %v); a bare pooled clone would drop the fields of every ancestor logger", used)
+	}
 }
